@@ -216,6 +216,15 @@ theorem Map_resize_c9_pin (copied : BitVec 64) :
 theorem Map_resize_c10_pin (i : BitVec 64) (tableLen : BitVec 64) :
     Gen.MapSites.Map_resize_c10 i tableLen = (BitVec.slt i tableLen) := by pin_tac Gen.MapSites.Map_resize_c10
 
+theorem Map_resize_s0_pin (hint : BitVec 64) :
+    Gen.MapSites.Map_resize_s0 hint = (hint == (0#64)) := by pin_tac Gen.MapSites.Map_resize_s0
+
+theorem Map_resize_s1_pin (hint : BitVec 64) :
+    Gen.MapSites.Map_resize_s1 hint = (hint == (1#64)) := by pin_tac Gen.MapSites.Map_resize_s1
+
+theorem Map_resize_s2_pin (hint : BitVec 64) :
+    Gen.MapSites.Map_resize_s2 hint = (hint == (2#64)) := by pin_tac Gen.MapSites.Map_resize_s2
+
 theorem Map_resize_x0_pin (tableLen : BitVec 64) :
     Gen.MapSites.Map_resize_x0 tableLen = (tableLen <<< 1) := by pin_tac Gen.MapSites.Map_resize_x0
 
@@ -459,6 +468,9 @@ theorem siteParams_pin : Gen.MapSites.siteParams = [("newMap_c0", ["sizeHint"]),
   ("Map_resize_c8", ["end_", "i"]),
   ("Map_resize_c9", ["copied"]),
   ("Map_resize_c10", ["i", "tableLen"]),
+  ("Map_resize_s0", ["hint"]),
+  ("Map_resize_s1", ["hint"]),
+  ("Map_resize_s2", ["hint"]),
   ("Map_resize_x0", ["tableLen"]),
   ("Map_resize_x1", ["tableLen"]),
   ("Map_resize_x2", ["tableLen"]),
@@ -521,31 +533,31 @@ theorem siteParams_pin : Gen.MapSites.siteParams = [("newMap_c0", ["sizeHint"]),
   ("setByte_a0", ["idx"]),
   ("setByte_r0", ["b", "shift", "w"])] := by rfl
 
-theorem shape_pin : Gen.MapSites.shape = [("NewWithSize", [0, 0, 0, 1, 0, 0]),
-  ("New", [0, 0, 0, 1, 0, 0]),
-  ("newMap", [1, 0, 6, 1, 0, 0]),
-  ("newMapTable", [2, 0, 6, 1, 0, 0]),
-  ("zeroValue", [0, 0, 0, 1, 0, 0]),
-  ("Map_Get", [4, 1, 12, 2, 0, 1]),
-  ("Map_Compute", [15, 1, 26, 6, 0, 1]),
-  ("Map_newerTableExists", [0, 0, 0, 1, 0, 0]),
-  ("Map_resizeInProgress", [0, 0, 0, 1, 0, 0]),
-  ("Map_waitForResize", [1, 0, 0, 0, 0, 0]),
-  ("Map_resize", [11, 3, 16, 0, 1, 5]),
-  ("Map_copyBucketWithDestLock", [3, 2, 8, 1, 0, 0]),
-  ("Map_copyBucket", [3, 2, 8, 1, 0, 0]),
-  ("Map_Range", [4, 1, 11, 0, 0, 0]),
-  ("Map_Clear", [0, 0, 1, 0, 0, 0]),
-  ("Map_Size", [0, 0, 1, 1, 0, 0]),
-  ("appendToBucket", [3, 1, 6, 0, 0, 0]),
-  ("mapTable_addSize", [0, 0, 1, 0, 0, 0]),
-  ("mapTable_addSizePlain", [0, 1, 1, 0, 0, 0]),
-  ("mapTable_sumSize", [0, 1, 1, 1, 0, 0]),
-  ("h1", [0, 0, 0, 1, 0, 0]),
-  ("h2", [0, 0, 0, 1, 0, 0]),
-  ("broadcast", [0, 0, 0, 1, 0, 0]),
-  ("firstMarkedByteIndex", [0, 0, 0, 1, 0, 0]),
-  ("markZeroBytes", [0, 0, 0, 1, 0, 0]),
-  ("setByte", [0, 0, 1, 1, 0, 0])] := by rfl
+theorem shape_pin : Gen.MapSites.shape = [("NewWithSize", [0, 0, 0, 1, 0, 0, 0]),
+  ("New", [0, 0, 0, 1, 0, 0, 0]),
+  ("newMap", [1, 0, 6, 1, 0, 0, 0]),
+  ("newMapTable", [2, 0, 6, 1, 0, 0, 0]),
+  ("zeroValue", [0, 0, 0, 1, 0, 0, 0]),
+  ("Map_Get", [4, 1, 12, 2, 0, 1, 0]),
+  ("Map_Compute", [15, 1, 26, 6, 0, 1, 0]),
+  ("Map_newerTableExists", [0, 0, 0, 1, 0, 0, 0]),
+  ("Map_resizeInProgress", [0, 0, 0, 1, 0, 0, 0]),
+  ("Map_waitForResize", [1, 0, 0, 0, 0, 0, 0]),
+  ("Map_resize", [11, 3, 16, 0, 1, 5, 3]),
+  ("Map_copyBucketWithDestLock", [3, 2, 8, 1, 0, 0, 0]),
+  ("Map_copyBucket", [3, 2, 8, 1, 0, 0, 0]),
+  ("Map_Range", [4, 1, 11, 0, 0, 0, 0]),
+  ("Map_Clear", [0, 0, 1, 0, 0, 0, 0]),
+  ("Map_Size", [0, 0, 1, 1, 0, 0, 0]),
+  ("appendToBucket", [3, 1, 6, 0, 0, 0, 0]),
+  ("mapTable_addSize", [0, 0, 1, 0, 0, 0, 0]),
+  ("mapTable_addSizePlain", [0, 1, 1, 0, 0, 0, 0]),
+  ("mapTable_sumSize", [0, 1, 1, 1, 0, 0, 0]),
+  ("h1", [0, 0, 0, 1, 0, 0, 0]),
+  ("h2", [0, 0, 0, 1, 0, 0, 0]),
+  ("broadcast", [0, 0, 0, 1, 0, 0, 0]),
+  ("firstMarkedByteIndex", [0, 0, 0, 1, 0, 0, 0]),
+  ("markZeroBytes", [0, 0, 0, 1, 0, 0, 0]),
+  ("setByte", [0, 0, 1, 1, 0, 0, 0])] := by rfl
 
 end OtterVerif.Pin.MapSites
